@@ -4,7 +4,7 @@
    level L the array is the original one rearranged by Phi (pi L) L d, and the values standing
    at position L in the rounds d = 0..L are pairwise different.  (Classical analysis of Heap's
    algorithm, here for the iterative form used by itertools.Permutations.) *)
-From Coq Require Import List Arith Bool Lia.
+From Coq Require Import List Arith Bool Lia Permutation.
 Import ListNotations.
 
 Definition tr (a b p : nat) : nat := if p =? a then b else if p =? b then a else p.
@@ -160,14 +160,15 @@ Lemma pi_small : forall L p, L < 3 -> p <= L -> pi (S L) p = pispec L p.
 Proof.
   intros L p HL Hp.
   destruct L as [|[|[|L]]]; try lia;
-  repeat (destruct p as [|p]; [vm_compute; reflexivity|]); lia.
+  destruct p as [|[|[|p]]]; try lia; vm_compute; reflexivity.
 Qed.
 
 Theorem pi_spec : forall L p, pi (S L) p = pispec L p.
 Proof.
   induction L as [L IH] using lt_wf_ind. intros p.
   destruct (le_lt_dec p L) as [Hp|Hp].
-  2:{ rewrite pi_fix by lia. unfold pispec, tr, rho. destruct (Nat.even L); ncases; lia. }
+  2:{ rewrite pi_fix by lia. unfold pispec, tr, rho. destruct (Nat.even L) eqn:Ev; [ncases; lia|].
+      assert (L <> 0) by (intros ->; discriminate). ncases; lia. }
   destruct (le_lt_dec 3 L) as [H3|H3]; [|apply pi_small; auto].
   assert (Hprev : forall q, pi L q = pispec (L - 1) q).
   { intros q. replace L with (S (L - 1)) at 1 by lia. apply IH. lia. }
@@ -285,3 +286,16 @@ Proof.
     apply existsb_exists in H. destruct H as (d & Hd & E). apply in_seq in Hd. apply Nat.eqb_eq in E.
     exists d. split; [lia|auto].
 Qed.
+
+(* ------------------------------------------------------------------ the tables of a complete run *)
+
+(* T n k: the arrays (as tables of indices into the initial array, length n) visited by a complete
+   run over the first k positions, in order of generation, the initial arrangement first *)
+Fixpoint T (n k : nat) : list (list nat) :=
+  match k with
+  | 0 => [seq 0 n]
+  | S L => flat_map (fun d => map (map (Phi (pi L) L d)) (T n L)) (seq 0 (S L))
+  end.
+
+Definition kperm (n k : nat) (t : list nat) : Prop :=
+  Permutation t (seq 0 n) /\ forall p, k <= p < n -> nth p t 0 = p.
